@@ -251,12 +251,16 @@ func refDecodeBlock(b []byte) (*rBlock, int, string) {
 		}
 	}
 	if r.why != "" {
+		lastFail = len(bl.txs) // index of the transaction the reader gave up in
 		return nil, 0, r.why
 	}
 	bl.offs = append(bl.offs, r.p)
 	bl.cs = r.cs
 	return bl, r.p, ""
 }
+
+// index of the transaction in which the last refDecodeBlock that refused gave up (single-threaded workers)
+var lastFail int
 
 func putCS(w *bytes.Buffer, v uint64) {
 	switch {
@@ -589,6 +593,198 @@ func eqTx(tx *btc.Tx, rt *rTx) string {
 	return ""
 }
 
+// howDecoded names, from the decoded structure, as what the decoder took an encoding it should have refused
+func howDecoded(tx *btc.Tx) string {
+	switch {
+	case tx == nil:
+		return "nothing"
+	case tx.SegWit != nil:
+		return "as-witness"
+	case len(tx.TxIn) == 0:
+		return "legacy-noinputs"
+	}
+	return "legacy"
+}
+
+// fromDecoded turns what gocoin decoded into the harness' own transaction type (for its own serialiser)
+func fromDecoded(tx *btc.Tx) (*rTx, string) {
+	le32 := func(v uint32) []byte { x := make([]byte, 4); binary.LittleEndian.PutUint32(x, v); return x }
+	rt := &rTx{ver: le32(tx.Version), lock: le32(tx.Lock_time), hasWit: tx.SegWit != nil}
+	for i, in := range tx.TxIn {
+		if in == nil {
+			return nil, fmt.Sprintf("input %d is nil", i)
+		}
+		rt.ins = append(rt.ins, rIn{prev: append(append([]byte{}, in.Input.Hash[:]...), le32(in.Input.Vout)...), script: in.ScriptSig, seq: le32(in.Sequence)})
+	}
+	for i, o := range tx.TxOut {
+		if o == nil {
+			return nil, fmt.Sprintf("output %d is nil", i)
+		}
+		v := make([]byte, 8)
+		binary.LittleEndian.PutUint64(v, o.Value)
+		rt.outs = append(rt.outs, rOut{value: v, pk: o.Pk_script})
+	}
+	if rt.hasWit {
+		if len(tx.SegWit) != len(tx.TxIn) {
+			return nil, fmt.Sprintf("%d witness stacks for %d inputs", len(tx.SegWit), len(tx.TxIn))
+		}
+		rt.wit = tx.SegWit
+	}
+	return rt, ""
+}
+
+// sameModuloForms: raw is the BIP144 serialisation `ser` of the decoded transaction except that some CompactSize
+// is written in a longer form (ok, nonmin = true, true) - or it is something else (ok = false)
+func sameModuloForms(raw []byte, rt *rTx) (ok, nonmin bool) {
+	p := 0
+	fixed := func(x []byte) bool {
+		if p+len(x) > len(raw) || !bytes.Equal(raw[p:p+len(x)], x) {
+			return false
+		}
+		p += len(x)
+		return true
+	}
+	cs := func(v int) bool {
+		if p >= len(raw) {
+			return false
+		}
+		var got uint64
+		sz := 1
+		switch raw[p] {
+		case 0xfd:
+			sz = 3
+		case 0xfe:
+			sz = 5
+		case 0xff:
+			sz = 9
+		}
+		if p+sz > len(raw) {
+			return false
+		}
+		switch sz {
+		case 1:
+			got = uint64(raw[p])
+		case 3:
+			got = uint64(binary.LittleEndian.Uint16(raw[p+1:]))
+		case 5:
+			got = uint64(binary.LittleEndian.Uint32(raw[p+1:]))
+		default:
+			got = binary.LittleEndian.Uint64(raw[p+1:])
+		}
+		if got != uint64(v) {
+			return false
+		}
+		var m bytes.Buffer
+		putCS(&m, got)
+		if m.Len() != sz {
+			nonmin = true
+		}
+		p += sz
+		return true
+	}
+	if !fixed(rt.ver) || (rt.hasWit && !fixed([]byte{0, 1})) || !cs(len(rt.ins)) {
+		return false, false
+	}
+	for _, in := range rt.ins {
+		if !fixed(in.prev) || !cs(len(in.script)) || !fixed(in.script) || !fixed(in.seq) {
+			return false, false
+		}
+	}
+	if !cs(len(rt.outs)) {
+		return false, false
+	}
+	for _, o := range rt.outs {
+		if !fixed(o.value) || !cs(len(o.pk)) || !fixed(o.pk) {
+			return false, false
+		}
+	}
+	if rt.hasWit {
+		for _, st := range rt.wit {
+			if !cs(len(st)) {
+				return false, false
+			}
+			for _, it := range st {
+				if !cs(len(it)) || !fixed(it) {
+					return false, false
+				}
+			}
+		}
+	}
+	if !fixed(rt.lock) || p != len(raw) {
+		return false, false
+	}
+	return true, nonmin
+}
+
+// selfCheck: the decoder accepted `raw` although the rules refuse it.  The first clause of the property holds for
+// whatever is accepted: the decoded transaction must re-encode to exactly the bytes consumed, and the reported
+// hashes and sizes must be those of that transaction (BIP144 serialisations by the harness' own serialiser).
+// hashed: Hash / wTxID / Size are already set (block path); otherwise SetHash(raw) is called first.
+// A re-encoding that differs only in CompactSize forms is the acceptance of a non-minimal length.
+func (j *judge) selfCheck(who string, tx *btc.Tx, raw []byte, hashed, coinbase bool) {
+	rt, bad := fromDecoded(tx)
+	if rt == nil {
+		j.fail("fields", who+": accepted transaction is malformed: "+bad)
+		return
+	}
+	full, nowit := rt.ser(true), rt.ser(false)
+	if !bytes.Equal(full, raw) {
+		if ok, nonmin := sameModuloForms(raw, rt); ok && nonmin {
+			j.fail("accepted:nonminimal", who+": accepted an encoding with a non-minimal CompactSize")
+			return
+		}
+		j.fail("reencode", fmt.Sprintf("%s: accepted %d bytes (taken %s) but the decoded transaction serialises to %d different bytes", who, len(raw), howDecoded(tx), len(full)))
+	}
+	same := bytes.Equal(full, raw)
+	var s1, s2 []byte
+	var weight, vsize int
+	var gotW [32]byte
+	g := guarded("SetHash/Serialize", func() {
+		if !hashed {
+			tx.SetHash(raw)
+		}
+		gotW = tx.WTxID().Hash
+		weight, vsize = tx.Weight(), tx.VSize()
+		s1 = tx.Serialize()
+		s2 = tx.SerializeNew()
+	})
+	if !j.totality("SetHash/Serialize", g) {
+		return
+	}
+	txid := sha256d(nowit)
+	wtxid := txid
+	if rt.hasWit {
+		wtxid = sha256d(full)
+	}
+	if tx.Hash.Hash != txid {
+		j.fail("txid", fmt.Sprintf("%s: txid %x, expected %x", who, tx.Hash.Hash, txid))
+	}
+	if gotW != wtxid && !(coinbase && gotW == [32]byte{}) {
+		j.fail("wtxid", fmt.Sprintf("%s: wtxid %x, expected %x", who, gotW, wtxid))
+	}
+	if int(tx.Size) != len(raw) || int(tx.NoWitSize) != len(nowit) {
+		j.fail("size", fmt.Sprintf("%s: Size/NoWitSize %d/%d, expected %d/%d", who, tx.Size, tx.NoWitSize, len(raw), len(nowit)))
+	}
+	if weight != 3*len(nowit)+len(raw) || vsize != (3*len(nowit)+len(raw)+3)/4 {
+		j.fail("weight", fmt.Sprintf("%s: Weight()/VSize() %d/%d for nowit %d, size %d", who, weight, vsize, len(nowit), len(raw)))
+	}
+	if !bytes.Equal(s1, nowit) {
+		j.fail("serialize", who+": Serialize() is not the original-format serialisation of the decoded transaction")
+	}
+	if same && !bytes.Equal(s2, raw) {
+		j.fail("reencode", fmt.Sprintf("%s: SerializeNew() (%d bytes) differs from the %d bytes consumed", who, len(s2), len(raw)))
+	}
+}
+
+// sigAccepted: the signature of "accepted although it must be refused" says, for a bad flag byte, as what the
+// decoder took the transaction - two decoders that are wrong in different ways must not share a signature
+func sigAccepted(why string, tx *btc.Tx) string {
+	if why == "badflag" {
+		return "accepted:" + why + ":" + howDecoded(tx)
+	}
+	return "accepted:" + why
+}
+
 // judgeTx runs the transaction decoder and everything that reports on its result
 func (j *judge) judgeTx(w txWant) {
 	b := j.b
@@ -612,7 +808,10 @@ func (j *judge) judgeTx(w txWant) {
 	}
 	if !w.accept {
 		if tx != nil {
-			j.fail("accepted:"+w.why, fmt.Sprintf("NewTx accepted (consumed %d of %d bytes) an encoding that must be refused: %s", n, len(b), w.why))
+			j.fail(sigAccepted(w.why, tx), fmt.Sprintf("NewTx accepted (consumed %d of %d bytes, taken %s) an encoding that must be refused: %s", n, len(b), howDecoded(tx), w.why))
+			if w.why != "nonminimal" && n >= 0 && n <= len(b) { // (a non-minimal length cannot re-encode to itself: same finding)
+				j.selfCheck("NewTx", tx, b[:n], false, false)
+			}
 		}
 		return
 	}
@@ -681,13 +880,14 @@ func (j *judge) judgeTx(w txWant) {
 }
 
 type blWant struct {
-	accept bool
-	strict bool
-	why    string
-	n      int
-	rb     *rBlock
-	sizes  [][2]int // size, nowit
-	bw     int
+	failIdx int // refused: the transaction in which the reference reader gave up
+	accept  bool
+	strict  bool
+	why     string
+	n       int
+	rb      *rBlock
+	sizes   [][2]int // size, nowit
+	bw      int
 }
 
 func blWantFromRef(b []byte) (w blWant) {
@@ -695,6 +895,7 @@ func blWantFromRef(b []byte) (w blWant) {
 	w.strict = true
 	if rb == nil {
 		w.why = why
+		w.failIdx = lastFail
 		return
 	}
 	w.accept, w.n, w.rb = true, n, rb
@@ -743,7 +944,18 @@ func (j *judge) judgeBlock(w blWant) {
 		}
 		if !w.accept {
 			if er == nil {
-				j.fail("accepted:"+w.why, fmt.Sprintf("NewBlock+%s accepted a %d-byte block that must be refused: %s", fn, len(b), w.why))
+				var ftx *btc.Tx // the transaction the reference reader refused, as this decoder took it
+				if w.failIdx < len(bl.Txs) {
+					ftx = bl.Txs[w.failIdx]
+				}
+				j.fail(sigAccepted(w.why, ftx), fmt.Sprintf("NewBlock+%s accepted a %d-byte block that must be refused: %s (transaction %d taken %s)", fn, len(b), w.why, w.failIdx, howDecoded(ftx)))
+				if w.why != "nonminimal" && pass == 0 {
+					for i, tx := range bl.Txs {
+						if tx != nil {
+							j.selfCheck(fmt.Sprintf("%s Txs[%d]", fn, i), tx, tx.Raw, true, i == 0)
+						}
+					}
+				}
 			}
 			continue
 		}
